@@ -32,6 +32,10 @@ type C16Case struct {
 	// NoServer: no OpenRGB server is reachable, every LED goroutine stays in its connect/retry phase. Device 0 stays
 	// connected for 1.6 s; the others end early and must not have to wait for it.
 	NoServer bool `json:"no_server,omitempty"`
+	// Server: state of the OpenRGB server when NoServer is false: "" = lists every device's keyboard, "empty" = reports
+	// zero controllers, "foreign" = lists controllers but none of these devices, "mute" = accepts the connection and never
+	// answers. In the last three the LED goroutines never get past their discovery phase.
+	Server string `json:"server,omitempty"`
 	// Busy: per device, how long (ms) the reader of its MIDI output is busy when its event stream ends (0 = reads all the time)
 	Busy []int `json:"busy,omitempty"`
 }
@@ -128,10 +132,17 @@ func checkC16(c C16Case) (nontrivial bool, v *Violation) {
 	if err := BuildHidrawFixture(os.Getenv("VERIF_HIDRAW_FIXTURE"), events); err != nil {
 		return false, violation("C16", "harness", "", "fixture: %v", err)
 	}
+	switch c.Server {
+	case "empty":
+		ctrls = nil
+	case "foreign":
+		ctrls = []OrgbController{otherController("motherboard", c.LEDs, 9), otherController("keyboard-no-hidraw", c.LEDs, 9), otherController("mouse", c.LEDs, 9)}
+	}
 	srv, err := NewOrgbServer(ctrls)
 	if err != nil {
 		return false, violation("C16", "harness", "", "fake OpenRGB server: %v", err)
 	}
+	srv.Mute = c.Server == "mute"
 	port := srv.Port
 	if c.NoServer {
 		srv.Close() // the port stays closed: connection refused, the LED goroutines keep retrying
@@ -189,8 +200,17 @@ func checkC16(c C16Case) (nontrivial bool, v *Violation) {
 				res[i].problem = violation("C16", "harness", "", "SpawnOutput: %v", err)
 				return
 			}
+			despawned := false
+			defer func() {
+				if !despawned { // a problem path: the fan-out must not stay blocked behind this device's channel
+					fan.DespawnOutput(id)
+				}
+			}()
 			ld := startLedDeviceRO(shared, c.D, events[i], i, port, ch)
 			phase := c.Phase[i]
+			if c.Server != "" && !c.NoServer {
+				phase = "discovery-" + c.Server
+			}
 			if c.NoServer {
 				phase = "no-server-early"
 				if i == 0 {
@@ -202,6 +222,8 @@ func checkC16(c C16Case) (nontrivial bool, v *Violation) {
 				time.Sleep(time.Duration(c.Delay[i]%300) * time.Millisecond)
 			case "no-server-long":
 				time.Sleep(50 * time.Millisecond)
+			case "discovery-empty", "discovery-foreign", "discovery-mute":
+				time.Sleep(time.Duration(300+c.Delay[i]%900) * time.Millisecond) // connected (first attempt after 250 ms), asking for its controller
 			case "before-connect":
 				time.Sleep(time.Duration(c.Delay[i]%200) * time.Millisecond)
 			case "during-discovery":
@@ -251,6 +273,7 @@ func checkC16(c C16Case) (nontrivial bool, v *Violation) {
 					res[i].problem = violation("C16", "background-activity-left", "emits-after-end", "device %d: %s emitted after ProcessEvents had returned (the reader of its MIDI output was busy for %d ms when the stream ended)", i, fmtMsgs(b.Late), busy)
 				}
 				res[i].returnedIn = b.ReturnedIn - time.Duration(busy)*time.Millisecond
+				despawned = true
 				if err := fan.DespawnOutput(id); err != nil {
 					res[i].problem = violation("C16", "despawn", "", "device %d: %v", i, err)
 				}
@@ -270,6 +293,7 @@ func checkC16(c C16Case) (nontrivial bool, v *Violation) {
 				return
 			}
 			res[i].returnedIn = time.Since(t0)
+			despawned = true
 			if err := fan.DespawnOutput(id); err != nil {
 				res[i].problem = violation("C16", "despawn", "", "device %d: %v", i, err)
 			}
@@ -297,6 +321,9 @@ func checkC16(c C16Case) (nontrivial bool, v *Violation) {
 	}
 	// (2) prompt termination
 	for i := range res {
+		if c.Server != "" && c.Server != "mute" && !c.NoServer && res[i].returnedIn > time.Second {
+			return true, violation("C16", "no-prompt-termination", "discovery-"+c.Server, "device %d of %d (OpenRGB server state %q, LED goroutine still looking for its controller): ProcessEvents needed %v to return after its event stream ended", i, n, c.Server, res[i].returnedIn)
+		}
 		if c.NoServer && res[i].returnedIn > time.Second {
 			return true, violation("C16", "no-prompt-termination", "connect-phase", "device %d of %d (no OpenRGB server reachable, LED goroutines still in their connect phase): ProcessEvents needed %v to return after its event stream ended", i, n, res[i].returnedIn)
 		}
@@ -307,7 +334,10 @@ func checkC16(c C16Case) (nontrivial bool, v *Violation) {
 			nontrivial = true
 		}
 		classifyIf(res[i].busy && res[i].heldAtCut, "stream ends with notes held while the MIDI output is not being read")
-		if c.NoServer {
+		if c.Server != "" && !c.NoServer {
+			classify("server state " + c.Server)
+			nontrivial = true
+		} else if c.NoServer {
 			classify("no server reachable")
 			if n > 1 {
 				nontrivial = true
@@ -412,6 +442,9 @@ func genC16(t *rapid.T) C16Case {
 		c.Delay = append(c.Delay, rapid.IntRange(0, 1000).Draw(t, "delay"))
 	}
 	c.NoServer = rapid.IntRange(0, 6).Draw(t, "noServer") == 0
+	if !c.NoServer && rapid.IntRange(0, 5).Draw(t, "serverState") == 0 {
+		c.Server = rapid.SampledFrom([]string{"empty", "foreign", "mute"}).Draw(t, "server")
+	}
 	for i := rapid.IntRange(0, 12).Draw(t, "midiMsgs"); i > 0; i-- {
 		st := byte(0x90)
 		if rapid.Bool().Draw(t, "off") {
